@@ -1679,3 +1679,53 @@ pub mod verif_hooks {
         double_large_factor(n)
     }
 }
+
+/// Verification hooks (only with `--cfg yamaquasi_verif`): private fields of `A` and `Poly`,
+/// `Poly::eval` (property C12).
+#[cfg(yamaquasi_verif)]
+pub mod verif_hooks_poly {
+    use super::*;
+
+    /// Fields of a prepared `A`:
+    /// (a, primes of A, factors_idx, roots, deltas_mod_p, root0_mod_p, rp).
+    pub fn vh_a_fields(
+        a: &A,
+    ) -> (
+        Uint,
+        Vec<u64>,
+        Vec<usize>,
+        Vec<[I256; 2]>,
+        Vec<Vec<u32>>,
+        Vec<u32>,
+        Vec<u32>,
+    ) {
+        (
+            a.a,
+            a.factors.iter().map(|f| f.p).collect(),
+            a.factors_idx.to_vec(),
+            a.roots.clone(),
+            a.deltas_mod_p.clone(),
+            a.root0_mod_p.clone(),
+            a.rp.clone(),
+        )
+    }
+
+    /// Fields of a polynomial: (idx, kind is Type2, a, b, c, root, r1p, r2p).
+    pub fn vh_poly_fields(pol: &Poly) -> (usize, bool, I256, I256, I256, u32, Vec<u32>, Vec<u32>) {
+        (
+            pol.idx,
+            pol.kind == PolyType::Type2,
+            pol.a,
+            pol.b,
+            pol.c,
+            pol.root,
+            pol.r1p.to_vec(),
+            pol.r2p.to_vec(),
+        )
+    }
+
+    /// `Poly::eval(x)`: (P(x), y).
+    pub fn vh_poly_eval(pol: &Poly, x: i64) -> (I256, I256) {
+        pol.eval(x)
+    }
+}
